@@ -68,6 +68,7 @@ func (ts tupleSpace) run(c *core.Ctx) (tuples, events []map[string]any) {
 	for i, ev := range events {
 		ev["shape"] = tuples[i]
 		js, _ := json.Marshal(ev)
+		js = bytes.ReplaceAll(js, []byte(":null"), []byte(":[]")) // TLC's Json module has no null
 		trace.Write(js)
 		trace.WriteByte('\n')
 		c.AddEval(1)
